@@ -6,7 +6,7 @@ PROPS = {
         lean=['XV.Props.C12'],
         level='proof',
         timeout={'quick': 600, 'thorough': 3000},
-        trusted_base=[KERNEL, HARNESS,
+        trusted_base=[KERNEL, HARNESS, "go/lockproto (go/ast fact extractor for doTxSync's lock skeleton, ~150 lines): trusted to read the statements of doTxSync correctly",
                       "modelled by hand and tied by correspondence (label-for-label, on every enumerated schedule of the real code): SpinLock.TryLock/Unlock/ExtractLockKeys and the lock/critical-section/unlock skeleton of doTxSync",
                       "Go's sync.Mutex / sync.Map and memory model: a region executed under SpinLock.mu is one atomic step (the harness probes the real mutex at every yield point, so removing it splits the step and is seen)"],
         assumptions=["the lock keys of a request are pairwise distinct (ExtractLockKeys de-duplicates; checked by the correspondence on every thread line)",
@@ -22,10 +22,10 @@ ENGINES = [
 
 META = {
     'C12': dict(
-        text="Kernel-checked theorems (lean/XV/Props/C12.lean) about the step system of the lock protocol (lean/XV/Model/SpinLock.lean: TryLock key by key with lookup+refcount as one atomic step per key, critical section cs.check / cs.apply / cs.publish, Unlock key by key with release+delete as one atomic step; lean/XV/Model/Sched.lean: run : Sys -> List ThreadId -> Sys), for EVERY schedule, any number of threads and any requests with pairwise distinct keys: mutex_inv (two threads inside their critical sections share a key only if both hold it shared; the table entry of every key of a thread inside exists), mutex_inv_holders (the same for every holder, also half-way through TryLock/Unlock), refcount_exact (count = number of shared holders, entry exists iff somebody holds the key), quiescent_clean (all-or-fail: when everybody has finished the table is empty), step_progress / no_deadlock / no_deadlock_all (no step ever waits; a thread scheduled 2*keys+5 times has finished whatever the others do), serialisable (replaying the logged requests one at a time in cs.apply order from the initial store reproduces every verdict and the final store: no lost update). The statement is refuted for the faithful model of the code BEFORE the repair (mutex_inv_prefix_counterexample: the predicted S,S,X,X schedule ends with two exclusive holders inside; mutex_inv_prefix_counterexample3), which was reproduced on the real unpatched SpinLock through the yield hooks and repaired by a fix: commit. Tie: a deterministic scheduler runs goroutines on the REAL utxo.SpinLock and releases exactly one at each yield hook; the yield-label sequence, verdicts, store, remaining locks and serial log of every enumerated schedule must equal the Lean model's (all complete schedules of 2 threads for 10 conflict patterns and of 3 single-key threads, random 3-4 thread schedules); the impl-side oracle checks mutual exclusion, entry existence, stale applies, existence of an equivalent sequential order, leaks, timeouts and panics directly on the real run.",
+        text="Kernel-checked theorems (lean/XV/Props/C12.lean) about the step system of the lock protocol (lean/XV/Model/SpinLock.lean: TryLock key by key with lookup+refcount as one atomic step per key, critical section cs.check / cs.apply / cs.publish, Unlock key by key with release+delete as one atomic step; lean/XV/Model/Sched.lean: run : Sys -> List ThreadId -> Sys), for EVERY schedule, any number of threads and any requests with pairwise distinct keys: mutex_inv (two threads inside their critical sections share a key only if both hold it shared; the table entry of every key of a thread inside exists), mutex_inv_holders (the same for every holder, also half-way through TryLock/Unlock), refcount_exact (count = number of shared holders, entry exists iff somebody holds the key), quiescent_clean (all-or-fail: when everybody has finished the table is empty), step_progress / no_deadlock / no_deadlock_all (no step ever waits; a thread scheduled 2*keys+5 times has finished whatever the others do), serialisable (replaying the logged requests one at a time in cs.apply order from the initial store reproduces every verdict and the final store: no lost update), log_verdicts (the log is exactly the applied/stale requests), lock_fail_has_conflict (TryLock fails only on a real conflict with another holder), doTxSync_follows_protocol (the lock skeleton of the real State.doTxSync, re-extracted from state.go with go/ast on every run into lean/XV/Gen/LockProto.lean, is the modelled one: TryLock on the extracted keys, deferred Unlock of exactly the keys taken registered before the guard, return on failure before any shared access, under utxo.Mutex.RLock). The statement is refuted for the faithful model of the code BEFORE the repair (mutex_inv_prefix_counterexample: the predicted S,S,X,X schedule ends with two exclusive holders inside; mutex_inv_prefix_counterexample3), which was reproduced on the real unpatched SpinLock through the yield hooks and repaired by a fix: commit. Tie: a deterministic scheduler runs goroutines on the REAL utxo.SpinLock (thread body = doTxSync's lock protocol as extracted from state.go) and releases exactly one at each yield hook; the yield-label sequence, verdicts, store, remaining locks and serial log of every enumerated schedule must equal the Lean model's (all complete schedules of 2 threads for 10 conflict patterns and of 3 single-key threads, random 3-4 thread schedules); the impl-side oracle checks mutual exclusion, entry existence, stale applies, existence of an equivalent sequential order, leaks, timeouts and panics directly on the real run.",
         design_ref='DESIGN.md §6 C12',
         note="Trusted: Lean kernel, the harness/scheduler, Go's sync.Mutex/sync.Map (a region under SpinLock.mu is one atomic step; the harness probes the real mutex at every yield point, so a missing lock splits the step, breaks the correspondence and exposes the race to the oracle). The critical section is a versioned key store inside the harness (stand-in for doTxSync's check/apply/publish); concurrent State.DoTx / SelectUtxos / PlayAndRepost on a real ledger are NOT driven by this engine, so the end-to-end part of C12 (balances/total after concurrent DoTx, select_unique for SelectUtxos under MutexMem) is not covered. Not covered by nature: preemption inside an atomic step, memory-model effects, wall-clock lock expiry.",
-        technique='Lean 4 invariant proof over an interleaving semantics (unbounded threads/steps); stateless model checking of the real code through yield hooks, label-for-label correspondence',
+        technique='Lean 4 invariant proof over an interleaving semantics (unbounded threads/steps); stateless model checking of the real code through yield hooks, label-for-label correspondence; go/ast fact extraction for doTxSync',
     ),
 }
 
